@@ -158,11 +158,29 @@ class LevelA:
                         should_kill = tracked and ((stops[0] & 2) or (cur.hm != 0 and cur.um + a >= cur.hm))
                         if should_kill != (outcome == "terminated"):
                             bad.append(("mem_kill_exact", i, ln))
-                if kind == "rel" and legal:
-                    if outcome == "crash" and not (cur.hm and a > cur.um):
-                        bad.append(("release_crash_only_on_underflow", i, ln))
-                    if outcome == "ok" and cur.hm and n.um != cur.um - a:
-                        bad.append(("release_accounted", i, ln))
+                if kind == "rel":
+                    # "releasing memory never drives the counter below zero or crashes" (any history, legal or not):
+                    # since 8007e69 a release drains the active context, then its ancestors, down to the first
+                    # context without hard memory limit, which absorbs the rest; a runtime made by rt.New has such
+                    # a context at the bottom.
+                    if outcome != "ok":
+                        bad.append(("release_never_crashes", i, ln))
+                    else:
+                        reach = 0
+                        while reach < len(stack) and stack[reach].hm != 0:
+                            reach += 1
+                        covered = sum(f.um for f in stack[:reach])
+                        taken = min(a, covered)
+                        if sum(f.um for f in fr[:reach]) != covered - taken:
+                            bad.append(("release_cascades_exactly", i, ln))
+                        for d, (f0, f1) in enumerate(zip(stack, fr)):
+                            if f1.um > f0.um or (d >= reach and f1.um != f0.um) or (f1.uc, f1.hc, f1.hm, f1.status) != (f0.uc, f0.hc, f0.hm, f0.status):
+                                bad.append(("release_only_lowers_reachable_counters", i, ln))
+                                break
+                        for d in range(1, len(fr)):
+                            if fr[d].um != stack[d].um and fr[d - 1].um != 0:
+                                bad.append(("release_innermost_first", i, ln))
+                                break
                 if kind == "stop":
                     stops[0] |= a
                     if legal and (outcome == "terminated") != bool(a & 2 and was_live):
